@@ -91,14 +91,36 @@ def gen_cases(rng, tier, binary, workdir):
         _, _, s, t = jl[i]
         w = pg.width(s)
         ins = edge_bitstrings(w, r4, nrand) if w else [[]]
+        nmodel = per_jet_model
         if cc.core_jets is not None:
-            ins += cc.core_jets.edge_inputs(nm, r4)[: (12 if tier == "quick" else 200)]
+            if nm in cc.core_jets._JV:
+                # jets on typed values (SHA-256 contexts, parse_*, secp256k1 arithmetic): uniformly random bits almost
+                # never form an interesting input (a context with fewer than 2^55 blocks), so the structured inputs
+                # come first and more of them go to the Coq specification as well
+                ins = cc.core_jets.edge_inputs(nm, r4)[: (40 if tier == "quick" else 400)] + ins[: (6 if tier == "quick" else 30)]
+                nmodel = (2 if w > 2000 else 5) if tier == "quick" else (8 if w > 2000 else 30)
+            else:
+                ins += cc.core_jets.edge_inputs(nm, r4)[: (12 if tier == "quick" else 200)]
         prog = [("jet", "c", nm)]
         arrows = [(s, t)]
         for q, bits in enumerate(ins):
             v = pg.of_padded(s, bits) if w else ("U",)
             add(prog, arrows, {}, (s, bits) if w else None, {"value": v, "gen": "jet", "jet": nm},
-                model=(q < per_jet_model or q % 11 == 5))
+                model=(q < nmodel or (q % 11 == 5 and w <= 2000)))
+    # ---- 3. the same runs observed at the level of `Value` (buffer, bit offset, type): the input Value sits at an
+    # arbitrary bit offset of a shared buffer, the output is the Value exec returns (model: Core/ExecValue.v)
+    r5 = rng.fork("values")
+    base = [c for c in cases if c.kind == "exec" and c.expr is not None and c.meta.get("gen") in ("random", "template")
+            and "value" in c.meta]
+    want = 160 if tier == "quick" else 2500
+    step = max(1, len(base) // want)
+    for c in base[::step]:
+        m = c.meta
+        padty = r5.choice(cc.PAD_TYPES)
+        padbits = cc.rand_padded(r5, padty, pg.rand_value(r5, padty))
+        k[0] += 1
+        cases.append(cc.make_execv_case("v%d" % k[0], m["prog"], m["arrows"], m["cmrs"], m["inp"], padty, padbits, jet_ids, costs,
+                                        meta={"value": m["value"], "gen": "value-level"}))
     return cases, notes
 
 
@@ -119,7 +141,42 @@ def edge_bitstrings(w, rng, nr):
 
 
 # ------------------------------------------------------------------ the property, on the implementation
+def prop_check_v(c, r):
+    """the property at the level of Value: the Value returned has the target type (Value::unit() for a zero-width target)
+    and the cells it occupies in its buffer decode to the semantic value; the input Value was laid out as intended"""
+    m = c.meta
+    d = cc.split_execv(r)
+    if d["tag"] in ("crash", "panic-early", "panic"):
+        return ("panic", "the Bit Machine panicked or crashed on %s" % c.line[:200])
+    if d["tag"] in ("build", "limit"):
+        return ("build", "generated program rejected (%s): %s" % (d["tag"], c.line[:200]))
+    prog, arrows = m["prog"], m["arrows"]
+    ref = cc.reference_eval(prog, arrows, m["cmrs"], m["value"])
+    if ref[0] == "skip":
+        return None
+    tgt = arrows[-1][1]
+    if ref[0] != "ok":
+        if d["tag"] != "err":
+            return ("no-failure", "execution returned a value where the semantics fail (%s): %s" % (ref[0], c.line[:300]))
+        return None
+    if d["tag"] != "ok":
+        return ("fails", "execution failed (%s) where the semantics give a value: %s" % (d.get("err"), c.line[:300]))
+    w = pg.width(tgt)
+    if w > 0:
+        if d["is_target_ty"] != 1:
+            return ("value-type", "the Value returned does not have the target type on %s" % c.line[:300])
+        if d["out_off"] + w > 8 * len(d["out_bytes"]):
+            return ("value-buffer", "the Value returned does not fit its buffer on %s" % c.line[:300])
+        if pg.of_padded(tgt, cc.bits_at(d["out_bytes"], d["out_off"], w)) != ref[1]:
+            return ("value", "the Value returned does not denote the semantic value on %s" % c.line[:300])
+    elif d["is_unit_ty"] != 1:
+        return ("value-type", "zero-width target: the Value returned is not Value::unit() on %s" % c.line[:300])
+    return None
+
+
 def prop_check(c, r):
+    if c.kind == "execv":
+        return prop_check_v(c, r)
     m = c.meta
     d = cc.split_exec(r)
     if d["tag"] in ("crash", "panic-early", "panic"):
@@ -159,6 +216,8 @@ def prop_check(c, r):
 
 def nontrivial(c, r):
     m = c.meta
+    if c.kind == "execv":
+        return ("value-level", hash(cc.shape_key(m["prog"])), tuple(m["inp"][1]) if m["inp"] else (), cc.ty_pdl(m["padty"]))
     if "prog" not in m or m.get("gen") in ("jet", "wrong-input", "no-input"):
         if m.get("gen") == "jet":
             return ("jet", m["jet"], tuple(m["inp"][1]) if m["inp"] else ())
@@ -172,11 +231,12 @@ def run(rep, tier, rng):
     import time
     tm = {}
     t0 = time.time()
-    vplib.proof_stage(rep, "Props/C05.v", extra_targets=["Core/Run.vo"])
+    vplib.proof_stage(rep, "Props/C05.v", extra_targets=cc.EXTRA_TARGETS, allowed_axioms=cc.UINT63_PRIMS)
     tm["proof_stage_s"] = round(time.time() - t0, 1)
     rep.coverage["trusted_base"] = vplib.GENERIC_TRUSTED + [
-        "models Core/{Term,Typing,Sem,Machine}.v written by hand from bit_machine/{mod,frame}.rs; Jets/JetSpec.v by hand "
-        "(306 Core jets: arithmetic/logic/comparison families), the other jets are an oracle (Section variable jet_sem)",
+        "models Core/{Term,Typing,Sem,Machine}.v written by hand from bit_machine/{mod,frame}.rs; Jets/JetSpec.v and Jets/JetSpecSha.v by hand "
+        "(342 Core jets: arithmetic/logic/comparison families, SHA-256 family over Merkle/Sha256.v, parse_lock/parse_sequence, secp256k1 field "
+        "and scalar arithmetic), the other jets (elliptic curve points, signatures) are an oracle (Section variable jet_sem)",
         "final arrows, CMRs of disconnected branches and jet costs are taken from the implementation and handed to the model as data",
         "python reference evaluator tools/proggen.py eval_prog + tools/props/core_jets.py (independent of the Coq text)",
         "not modelled: overflow of cursor additions (unreachable under the theorems' premises), JetTypeMismatch, C jets, FFI marshalling",
@@ -193,7 +253,7 @@ def run(rep, tier, rng):
     impl, model = vplib.eval_cases(rep, binary, "core", cases, IMPORTS, tag="c05", batch=80)
     t0 = time.time()
     pfail, mism = vplib.decide(rep, cases, impl, model, prop_check, None, nontrivial,
-                               what="correspondence Core/Run.v (run_exec) vs BitMachine")
+                               what="correspondence Core/Run2.v (run_exec2) vs BitMachine")
     tm["property_check_s"] = round(time.time() - t0, 1)
     rep.coverage["timings"] = tm
     # second tie: the Coq big-step semantics against the python reference on a sample
@@ -201,7 +261,7 @@ def run(rep, tier, rng):
     sample = sample[:: max(1, len(sample) // (150 if tier == "quick" else 3000))]
     jl, costs = cc.jet_tables(binary, rep.workdir())
     jet_ids = {("c", j[1]): j[0] for j in jl}
-    exprs = ["run_eval %s %s %s" % (cc.coq_typed_prog(c.meta["prog"], c.meta["arrows"], jet_ids), cc.coq_cmrs(c.meta["cmrs"]),
+    exprs = ["run_eval2 %s %s %s" % (cc.coq_typed_prog(c.meta["prog"], c.meta["arrows"], jet_ids), cc.coq_cmrs(c.meta["cmrs"]),
                                       pg.val_coq(c.meta["value"])) for c in sample]
     vals, logs = vplib.coq_eval(IMPORTS, exprs, workdir=rep.workdir(), tag="c05eval", batch=60)
     sem_bad = []
@@ -225,13 +285,17 @@ def run(rep, tier, rng):
                       {"case": {"harness_args": c.line}, "model_result": v, "reference": exp}, False)
     tags = {}
     for c in cases:
-        t = cc.split_exec(impl.get(c.cid))["tag"]
+        t = (cc.split_execv if c.kind == "execv" else cc.split_exec)(impl.get(c.cid))["tag"]
         tags[t] = tags.get(t, 0) + 1
     rep.coverage["verdict_histogram"] = tags
+    zw = [c for c in cases if c.kind == "execv" and cc.split_execv(impl.get(c.cid)).get("is_target_ty") == 0]
+    rep.coverage["value_level"] = {"cases": sum(1 for c in cases if c.kind == "execv"),
+                                   "zero_width_target_returned_as_unit_type": len(zw)}
     rep.coverage["generation"] = {k: v for k, v in notes.items() if k != "jet_name_mismatch"}
     rep.coverage["rule"] = ("programs generated from the type structure (random source/target types, all combinators, sharing, witnesses "
                             "and inputs drawn from the inferred types, dirty sum padding in inputs), every specified jet on edge and "
-                            "random inputs, wrong-typed/missing inputs.  Distinct non-trivial = (term shape, input) of programs "
+                            "random inputs, wrong-typed/missing inputs, and a sample of the same runs observed at the level of Value (input Value at "
+                            "an arbitrary bit offset of a shared buffer, output buffer bytes / offset / type).  Distinct non-trivial = (term shape, input) of programs "
                             "containing a case or a comp through a padded type, and (jet, input)")
     rep.coverage["samples"] = [{"args": c.line[:300], "impl": impl.get(c.cid)} for c in cases[:: max(1, len(cases) // 5)][:6]]
     vplib.finish_proof_verdict(rep, pfail)
